@@ -333,7 +333,7 @@ def handle (j : Json) : Json :=
       ("filter", Json.str "notfound"), ("word", toJson w),
       ("accept", boolJ (obsErr == "notfound" && obsAll.isEmpty && obsExit == 3)),
       ("model", Json.mkObj [("events", mkArr []), ("err", Json.str "notfound"), ("exit", toJson (3 : Nat))]),
-      ("wf", Json.mkObj [("resolves", boolJ true), ("covers", boolJ true), ("trig", boolJ true)]),
+      ("wf", Json.mkObj [("resolves", boolJ true), ("covers", boolJ true), ("trig", boolJ true), ("rx", boolJ true), ("noredef", boolJ true)]),
       ("prop", Json.mkObj [("once", boolJ (onceOK obsAll.reverse)), ("after", boolJ true), ("obey", boolJ true),
                            ("utd", boolJ true), ("target", boolJ tgt.1), ("target_why", Json.str tgt.2)]),
       ("visited", toJson (0 : Nat))]
@@ -364,7 +364,7 @@ def handle (j : Json) : Json :=
       ("best_prefix", toJson best), ("best_state", Json.str bestS),
       ("model", simJ),
       ("selected", ofNats st.selected),
-      ("wf", Json.mkObj [("resolves", boolJ (resolvesB inp)), ("covers", boolJ (coversB inp)), ("trig", boolJ (trigB inp))]),
+      ("wf", Json.mkObj [("resolves", boolJ (resolvesB inp)), ("covers", boolJ (coversB inp)), ("trig", boolJ (trigB inp)), ("rx", boolJ (rxB inp)), ("noredef", boolJ (noRedefB inp))]),
       ("prop", Json.mkObj [("once", boolJ (onceOK rev)), ("after", boolJ (afterOK (trigOf inp) rev)),
                            ("obey", boolJ (obeyOK deps inp.noAct rev)), ("utd", boolJ (utdOK inp.utd rev)),
                            ("target", boolJ tgt.1), ("target_why", Json.str tgt.2)]),
